@@ -160,8 +160,8 @@ func recoverBarriers(f *ssa.Function) []*ssa.Defer {
 type guardResult struct {
 	Unprot    map[*ssa.Function]reachInfo // functions reachable with no barrier on the path
 	All       map[*ssa.Function]reachInfo
-	Sites     []guardSite                 // unprotected sites (in repo functions)
-	Protected int                         // sites in reachable repo functions that are protected
+	Sites     []guardSite // unprotected sites (in repo functions)
+	Protected int         // sites in reachable repo functions that are protected
 	ProtSites []guardSite
 	AllReach  int
 }
